@@ -202,6 +202,26 @@ def run(ctx):
                 for marker, ver in table:
                     seen[ver] = marker
             continue
+        if not is_const(t2) and ts2[0] == "ite":
+            # a gated constant (dictionary / conditional-expression dispatch): one version per leaf, with the gates as facts
+            def vleaves(x, conds=()):
+                x = strip(x)
+                if x[0] == "ite":
+                    yield from vleaves(x[2], conds + ((x[1], True),))
+                    yield from vleaves(x[3], conds + ((x[1], False),))
+                else:
+                    yield conds, x
+            for conds, leaf in vleaves(ts2):
+                if not (is_const(leaf) and isinstance(leaf[1], int)):
+                    continue
+                mk = None
+                for a, b in equality_atoms(atoms(tuple(pc2) + tuple(conds))):
+                    for x, y in ((a, b), (b, a)):
+                        xs = strip(x)
+                        if xs[0] == "slice" and strip(xs[1]) == ("param", dpv) and xs[2] is None and xs[3] == ("const", 2) and is_const(y) and isinstance(y[1], bytes):
+                            mk = y[1]
+                seen[leaf[1]] = mk
+            continue
         if not is_const(t2):
             continue
         facts = atoms(pc2)
